@@ -735,10 +735,11 @@ Proof.
       specialize (Vp y (proj2 (zrange_In height y) Hy)). rewrite forallb_forall in Vp.
       specialize (Vp x (proj2 (zrange_In width x) Hx)). apply Hceq; exact Vp. }
     destruct Gx as (Hox & HoxW & _).
+    assert (Cy2 : s_dims s = 2 -> centred height (f * sym_h s) oy).
+    { intros D2. rewrite D2 in Gy. cbn in Gy. apply centred_b_ok; exact Gy. }
+    clear Vp Gy Gmax GfitH GfitW G NS Bd Vh Hceq.
     constructor; intros D.
-    + assert (Cy : centred height (f * sym_h s) oy).
-      { rewrite D in Gy. cbn in Gy. apply centred_b_ok; exact Gy. }
-      destruct Cy as (Hoy & HoyH & _).
+    + destruct (Cy2 D) as (Hoy & HoyH & _). clear Cy2.
       intros i j x y Hi Hj Bx By.
       pose proof (outside_no_block _ _ _ _ _ Hf Hi Bx) as Ax.
       pose proof (outside_no_block _ _ _ _ _ Hf Hj By) as Ay.
